@@ -816,6 +816,26 @@ func c16(c *fw.Ctx) {
 		}
 	}
 	c.Exhaustive("BitArray sizes 0..200 x both constructors")
+	// sizes around the larger powers of two (row sizes of 8, 32 and 128 words and their neighbours)
+	for _, n := range []int{255, 256, 257, 1023, 1024, 1025, 4095, 4096, 4097} {
+		for k := 0; k < c.Pick(4, 40); k++ {
+			n, k := n, k
+			c.Run(fmt.Sprintf("m-large/%d/%d", n, k), func(r *fw.Rec) {
+				c16Matrix(r, n, []int{1, 2, 33, 3}[k%4])
+				r.Tally("large_matrix_sequences")
+			})
+			c.Run(fmt.Sprintf("m-tall/%d/%d", n, k), func(r *fw.Rec) {
+				c16Matrix(r, []int{1, 31, 32, 33}[k%4], n/[]int{1, 8, 16, 4}[k%4])
+				r.Tally("large_matrix_sequences")
+			})
+			c.Run(fmt.Sprintf("a-large/%d/%d", n, k), func(r *fw.Rec) {
+				c16Array(r, n, k%2)
+				r.Tally("large_array_sequences")
+			})
+		}
+	}
+	c.Floor("large_matrix_sequences", 60)
+	c.Floor("large_array_sequences", 30)
 	// every transforming operation as the first call of its kind in a fresh process
 	for _, op := range c16ColdMatrixOps {
 		op := op
